@@ -260,11 +260,22 @@ func judgeURL(w *core.W, c *urlCase) {
 				_ = f.URLPath("n", "x", "earlier", "withOptional", "true")
 			}
 			if c.Entry == "router" {
+				// callers keep one argument slice and pass it again: the second build gets what the first one got
+				keep := append([]string(nil), pairs...)
 				got = f.URLPath("n", pairs...)
+				if again := f.URLPath("n", pairs...); again != got {
+					panic(fmt.Sprintf("the same argument slice passed again builds %q, the first time %q (the slice was %q and is now %q)", again, got, keep, pairs))
+				}
+				w.Count("same-argument-slice-passed-twice")
 			} else {
 				rec := httptest.NewRecorder()
 				f.ServeHTTP(rec, &http.Request{Method: "GET", URL: &url.URL{Path: "/__probe"}, Header: http.Header{}})
 				got = fromCtx
+				// the handler keeps its argument slice between requests
+				f.ServeHTTP(httptest.NewRecorder(), &http.Request{Method: "GET", URL: &url.URL{Path: "/__probe"}, Header: http.Header{}})
+				if fromCtx != got {
+					panic(fmt.Sprintf("the same argument slice passed by the next request builds %q, the first time %q", fromCtx, got))
+				}
 			}
 		}()
 	}
@@ -328,7 +339,7 @@ func judgeURL(w *core.W, c *urlCase) {
 
 func genNameCase(rng *rand.Rand) *nameCase {
 	c := &nameCase{Routes: []string{"/a", "/b/{x}", "/c/?d", "/e"}}
-	names := []string{"", "n1", "n2", "n1"}
+	names := []string{"", "n1", "n2", "n1", "home", "Kelvin", "users.show"}
 	for k := 1 + rng.Intn(5); k > 0; k-- {
 		ri := rng.Intn(len(c.Routes))
 		who := fmt.Sprint(ri)
@@ -338,7 +349,7 @@ func genNameCase(rng *rand.Rand) *nameCase {
 		c.Naming = append(c.Naming, [2]string{who, names[rng.Intn(len(names))]})
 	}
 	for k := 1 + rng.Intn(3); k > 0; k-- {
-		c.Lookups = append(c.Lookups, []string{"n1", "n2", "zz", ""}[rng.Intn(4)])
+		c.Lookups = append(c.Lookups, []string{"n1", "n2", "zz", "", "N1", "home", "HOME", "Home", "\u212aelvin", "kelvin", "Kelvin", "home ", " home", "hom", "homee", "users.show", "users_show", "USERS.SHOW", "n1\x00"}[rng.Intn(19)])
 	}
 	return c
 }
@@ -493,7 +504,7 @@ func judgeInverse(w *core.W, c *invCase) {
 }
 
 func runC12(r *core.Run) {
-	r.Rule("(a) builds: one accepted route (all four kinds, multi-parameter lists, optional/empty final segment, root) x value assignments over hostile values ({x}-looking values, braces, slashes, escapes, empty, long, non-UTF-8), subsets of binds, unknown and repeated names, withOptional true/false/garbage, dangling name; through Router.URLPath, Context.URLPath and Leaf.URLPath. Oracle: renderer driven by the generated derivation (simultaneous substitution, annotations dropped). (b) inverse: requests dispatched to named routes rebuild their own path through Context.URLPath(params, withOptional iff used). (c) naming: empty / duplicate / unknown names must panic. non-trivial = distinct builds where a value looks like another bind of the route, or a bind is unsupplied, or the route has a multi-parameter list / optional segment (plus distinct inverse and naming cases)")
+	r.Rule("(a) builds: one accepted route (all four kinds, multi-parameter lists, optional/empty final segment, root) x value assignments over hostile values ({x}-looking values, braces, slashes, escapes, empty, long, non-UTF-8), subsets of binds, unknown and repeated names, withOptional true/false/garbage, dangling name; through Router.URLPath, Context.URLPath and Leaf.URLPath. Oracle: renderer driven by the generated derivation (simultaneous substitution, annotations dropped). (b) inverse: requests dispatched to named routes rebuild their own path through Context.URLPath(params, withOptional iff used). (c) naming: empty / duplicate / unknown names must panic - unknown names include case variants, Unicode case-fold variants, padded, truncated and extended spellings of registered names; router-level builds are repeated with the very same argument slice. non-trivial = distinct builds where a value looks like another bind of the route, or a bind is unsupplied, or the route has a multi-parameter list / optional segment (plus distinct inverse and naming cases)")
 	r.Assume("names containing braces are not generated (they are not bind names and their effect on a one-pass replacer depends on map order)")
 	c12Canaries(r)
 	n := r.N(60000, 3000000)
